@@ -35,7 +35,7 @@ rand    `-` or `<seed>:<d,d,…>` raw Int63 draws of math/rand after Seed(seed)
         (hex, `fb` = fallback) and the hashes of the 8 probe upstreams with that key. answer `<i>` (probe upstream
         chosen) | `fb` (the fallback decided) | `key:<hex>` (model only: it derives another key)
   ck <name> <cookies>
-        what the cookie policy takes from the request: cookies = `-` or `name:value;…` (hex, header order); a value
+        what the cookie policy takes from the request (name `-` = none configured, the default `lb`): cookies = `-` or `name:value;…` (hex, header order); a value
         `t<j>` stands for the HMAC token of probe upstream j (0-7). answer `<j>` | `fb`
 
   cf <tokens> <durations>
@@ -421,8 +421,8 @@ def handle : List String → String
   | ["ck", name, cks] =>
     match Hex.decode name, parsePairs cks with
     | some name, some cks =>
-      if name.isEmpty then "bad-op" else
-      match cookieValue name cks with
+      -- an empty name = none configured: `Provision` defaults it to `lb`
+      match cookieValue (if name.isEmpty then str "lb" else name) cks with
       | some v => (match tokenIdx v with | some j => toString j | none => "fb")
       | none => "fb"
     | _, _ => "bad-op"
